@@ -142,6 +142,7 @@ func runC18(_ *testing.T, c c18Case) (out kit.Outcome) {
 		sawNoChange       bool
 		prevStdev         float64
 		prevStdevKnown    = true // a new instance reports 0
+		varWasPositive    bool   // variance type: Get() was > 0 after some earlier Add since the reset (no Update in between)
 		outsidePrev       bool   // the sample just added lies outside the range of the earlier samples since the reset
 		prevLo, prevHi    float64
 	)
@@ -173,6 +174,7 @@ func runC18(_ *testing.T, c c18Case) (out kit.Outcome) {
 		}
 		switch op.K {
 		case "reset":
+			varWasPositive = false
 			resetRef()
 			prevStdev, prevStdevKnown = 0, true
 			twin = c18New(c)
@@ -282,6 +284,11 @@ func runC18(_ *testing.T, c c18Case) (out kit.Outcome) {
 			if got < 0 {
 				return kit.Viol("var:negative", "op %d %+v: variance Get()=%v < 0", i, op, got)
 			}
+			if op.K == "add" && !updated && varWasPositive && c.Alpha2 < 1 && got == 0 {
+				// a variance smoothed with a factor below 1 keeps part of every earlier squared deviation: it cannot fall
+				// back to exactly 0 in one step (the configured alphaVariance must be the factor in use)
+				return kit.Viol("var:forgotten", "op %d Add(%v): the variance was %v and is smoothed with alphaVariance=%v < 1, yet it reads 0 after one more sample", i, op.V, before, c.Alpha2)
+			}
 			if op.K == "add" && !updated && outsidePrev && got == 0 {
 				// whatever mean the variance is taken around lies within the earlier samples; a sample outside their
 				// range deviates from it, so the variance cannot be zero afterwards
@@ -294,6 +301,7 @@ func runC18(_ *testing.T, c c18Case) (out kit.Outcome) {
 				if math.Abs(v-math.Sqrt(got)) > tol(v) {
 					return kit.Viol("var:stdev", "op %d Add(%v): returned %v, sqrt(variance)=%v", i, op.V, v, math.Sqrt(got))
 				}
+				varWasPositive = !updated && got > 0
 			}
 		case "pct":
 			if op.K == "add" && count == 1 && !updated && got != op.V {
